@@ -20,6 +20,7 @@ type SmtLemma struct {
 	Pattern []*sx_
 	Trigger string // function symbol that makes the lemma relevant
 	Axiom   bool   // definitional axiom of an uninterpreted prelude function: not proved
+	Also    []string // variables that move together with the induction variable
 }
 
 func loadSmtLemmas(verifDir string) ([]*SmtLemma, error) {
@@ -43,6 +44,13 @@ func loadSmtLemmas(verifDir string) ([]*SmtLemma, error) {
 				lm.Vars = k.kids[1:]
 			case "induct":
 				lm.Induct = k.kids[1].atom
+				for _, extra := range k.kids[2:] {
+					if extra.head() == "also" {
+						for _, v := range extra.kids[1:] {
+							lm.Also = append(lm.Also, v.atom)
+						}
+					}
+				}
 			case "hyp":
 				lm.Hyp = k.kids[1]
 			case "concl":
@@ -100,6 +108,11 @@ func (lm *SmtLemma) queries(p *Program, prelude string, earlier []*SmtLemma) map
 	out["base"] = finish([]string{fmt.Sprintf("(assert (<= %s 0))", n), "(assert " + lm.Hyp.String() + ")", "(assert (not " + lm.Concl.String() + "))"})
 	ihHyp := substAtom(lm.Hyp, n, pred)
 	ihConcl := substAtom(lm.Concl, n, pred)
+	for _, v := range lm.Also {
+		pv := parseSexpr("(- " + v + " 1)")
+		ihHyp = substAtom(ihHyp, v, pv)
+		ihConcl = substAtom(ihConcl, v, pv)
+	}
 	out["step"] = finish([]string{fmt.Sprintf("(assert (> %s 0))", n), "(assert " + lm.Hyp.String() + ")",
 		"(assert (=> " + ihHyp.String() + " " + ihConcl.String() + "))", "(assert (not " + lm.Concl.String() + "))"})
 	return out
